@@ -203,13 +203,14 @@ CLAIMED["C04"] = (
     "contract-based deductive verification (tracked ghosts at call sites, call-site obligations + SMT)", "6/C04")
 
 CLAIMED["C13"] = (
-    "Proof that the command cache's write() aborts the store command (cancel) whenever an output could not be read while the archive was being "
-    "written — on the early-return path and at exit (ghost flag set from fs.Walk's result, loop invariant 'no failure so far'); that readTar and "
-    "httpCache.retrieve report a retrieve that failed partway as a miss (error implies false). The same requirement on httpCache.write is a "
-    "RECORDED KNOWN FINDING: after a read error it lets the deferred Close calls end the gzip/tar stream normally; the obligation is proved "
-    "outside that region and a canary obligation keeps the region honest. Kernel-only: HTTP server and custom-command behaviour are outside.",
+    "Proof that both cache writers abort a store as soon as an output cannot be read while the archive is being written: the command "
+    "cache's write() calls cancel (killing the store command) on the early-return path and at exit, and httpCache.write closes the pipe "
+    "feeding the request body WITH the error, so the request fails instead of delivering a well-formed but incomplete archive (ghost flag set "
+    "from fs.Walk's result, loop invariant 'no failure so far'; the HTTP half was a recorded known finding until repaired in /repo). readTar "
+    "reports a hit only if no directory, open, copy, close or link step failed, and httpCache.retrieve reports an error as a miss. "
+    "Kernel-only: HTTP server and custom-command behaviour, and the pipe protocol of the command cache's Retrieve, are outside.",
     COMMON_NOTE + "fs.Walk is an assumed iteration contract; storeFile (tar writing) is opaque; cancel is an opaque callback.",
-    "contract-based deductive verification (tracked ghosts, return-site obligations, known-finding region + SMT)", "6/C13")
+    "contract-based deductive verification (tracked ghosts, return-site obligations + SMT)", "6/C13")
 
 CLAIMED["C32"] = (
     "Proof of the ordering kernels that make a crash recoverable, as call-site obligations over ghost state recording the calls made so far and "
